@@ -118,6 +118,12 @@ func runMux(e *Env) {
 	nTasks := 2 + tp.Next(5)
 	nOps := 3 + tp.Next(6)
 	flood := proto == 2 && tp.Chance(1, 3) // drive a 7-bit connection towards exhaustion
+	// gocql.TimeoutLimit (package level, default 0 = off): a connection that has seen more
+	// than this many request timeouts is closed
+	timeoutLimit := int64([]int{0, 1, 3}[tp.Next(3)])
+	gocql.TimeoutLimit = timeoutLimit
+	defer func() { gocql.TimeoutLimit = 0 }()
+	e.Note("timeoutLimit", timeoutLimit)
 	e.Note("proto", proto)
 	e.Note("numConns", numConns)
 	e.Note("timeout", timeout.String())
@@ -287,7 +293,15 @@ func runMux(e *Env) {
 					continue
 				}
 				sc := sc
-				if len(sc.Outstanding) >= 2 {
+				// (with something in flight: answers owed, or a caller held inside the driver on
+				// its way to or from this connection)
+				held := false
+				for _, key := range k.ParkedKeys() {
+					if strings.Contains(key, "@"+sc.C.Name+"/") {
+						held = true
+					}
+				}
+				if len(sc.Outstanding) >= 2 || (held && len(sc.Outstanding) >= 1) || (held && tp.Chance(1, 4)) {
 					acts = append(acts, kernel.Action{Key: "srvclose:" + sc.C.Name, Rank: 6, Weight: 1, Do: func() {
 						k.Fault("conn.server-close")
 						if len(sc.Outstanding) >= 2 {
@@ -422,7 +436,7 @@ func muxCheckOutcome(k *kernel.Kernel, op *muxOp, err error, got string) {
 		return
 	}
 	switch cls {
-	case "timeout", "conn-closed", "no-streams", "no-connections", "write-error", "eof", "net-closed", "net-error", "net-timeout":
+	case "timeout", "conn-closed", "no-streams", "no-connections", "write-error", "eof", "net-closed", "net-error", "net-timeout", "too-many-timeouts":
 	case "ctx-canceled":
 		// the caller's own cancel, or the cancelled context of a connection that closed
 		// while a PREPARE for this statement was in flight on it
